@@ -1,8 +1,13 @@
 import MidnightZK.Model.C12.Par
 import MidnightZK.Proofs.C12.Booth
 import MidnightZK.Proofs.C12.Msm
+import MidnightZK.Proofs.C12.MsmBest
 import MidnightZK.Proofs.C12.Poly
 import MidnightZK.Proofs.C12.Fft
+import MidnightZK.Proofs.C12.Domain
+import MidnightZK.Proofs.C12.FftIter
+import Mathlib.Algebra.Field.Rat
+import Mathlib.Tactic.NormNum
 import MidnightZK.Model.C12.Curve
 import MidnightZK.Gen.C12Consts
 /-!
@@ -248,6 +253,60 @@ theorem msm_parallel_spec (t : Nat) (ht : 0 < t) (coeffs : List (List Nat)) (bas
 example : msmParallel 2 [[5], [44], [3], [9], [1]] [(7 : Int), -2, 1, 0, -7] = 35 - 88 + 3 - 7 := by
   decide
 
+private theorem list_range_sum (f : Nat → G) (n : Nat) :
+    ((List.range n).map f).sum = ∑ i ∈ Finset.range n, f i := by
+  induction n with
+  | zero => simp
+  | succ n ih => rw [List.range_succ, List.map_append, List.sum_append, ih, Finset.sum_range_succ]; simp
+
+/-- `msm_best_spec`: for every positive thread count, `msm_best` returns the naive sum — through
+`msm_parallel` when `⌈ln len⌉ < 10`, and otherwise through the per-window batch-affine schedule:
+whatever the interleaving of direct assignments, scheduled affine additions (batches of 64,
+each bucket at most once per batch, cancellation to `None`) and greedy Jacobian additions for
+buckets already in the batch, every window accumulates `Σ digitᵢ·baseᵢ`; identity bases are
+skipped; the windows recompose the scalars. `numBits` is `Scalar::NUM_BITS`. -/
+theorem msm_best_spec [DecidableEq G] (t : Nat) (ht : 0 < t) (numBits : Nat)
+    (coeffs : List (List Nat)) (bases : List G)
+    (hbytes : ∀ co ∈ coeffs, ∀ b ∈ co, b < 256) (hlen : coeffs.length = bases.length)
+    (h32 : bases.length < 2 ^ 32) (hval : ∀ co ∈ coeffs, leBytesToNat co < 2 ^ numBits) :
+    msmBest t numBits coeffs bases = msmSpec coeffs bases := by
+  unfold msmBest
+  simp only []
+  have hc1 := chooseWindow_pos bases.length h32
+  have hc24 : chooseWindow bases.length ≤ 24 := le_trans (chooseWindow_le _) (by norm_num)
+  set c := chooseWindow bases.length with hc
+  split
+  · exact msm_parallel_spec t ht coeffs bases hbytes hlen h32
+  · set nw := numBits / c + 1 with hnw
+    rw [foldl_add_map, zero_add, list_range_sum]
+    have hw : ∀ w, windowBest w c coeffs bases
+        = (2 ^ (c * w) : Nat) • ((coeffs.zip bases).map (fun cb => boothIndex w c cb.1 • cb.2)).sum :=
+      fun w => windowBest_spec w c coeffs bases
+        (fun co hco => booth_digit_bound w c co (hbytes co hco) hc1 hc24)
+    simp only [hw]
+    rw [sum_windows_exchange (coeffs.zip bases) nw (fun w co => boothIndex w c co) c]
+    unfold msmSpec
+    apply congrArg
+    apply List.map_congr_left
+    intro cb hcb
+    have hco := (List.of_mem_zip hcb).1
+    have hcover : 2 * leBytesToNat cb.1 < 2 ^ (c * nw) := by
+      have h1 := hval cb.1 hco
+      have h3 : numBits + 1 ≤ c * nw := by
+        have := Nat.div_add_mod numBits c
+        have hm := Nat.mod_lt numBits hc1
+        rw [hnw, Nat.mul_add, Nat.mul_one]
+        omega
+      calc 2 * leBytesToNat cb.1 < 2 * 2 ^ numBits := by omega
+        _ = 2 ^ (numBits + 1) := by rw [pow_succ]; ring
+        _ ≤ 2 ^ (c * nw) := Nat.pow_le_pow_right (by norm_num) h3
+    rw [booth_recompose nw c cb.1 (hbytes cb.1 hco) hc1 hc24 hcover, natCast_zsmul]
+
+/-- Non-vacuity of the schedule: one window of size 3 over ℤ with repeated, opposite and zero
+bases (bucket 1 is assigned, then scheduled, then cancelled; bucket 0 goes to the Jacobian side). -/
+example : windowBest 0 3 [[3], [3], [3], [1], [1], [5]] [(7 : Int), 7, -14, 4, 0, 1]
+    = 3 * 7 + 3 * 7 + 3 * (-14) + 4 + 0 + (-3) * 1 := by decide
+
 /-- `msm_zero_filter_ok` (`msm_specific`): dropping the terms whose scalar is zero before calling
 the underlying MSM (blst's Pippenger or `msm_best`) does not change the sum, and the empty
 remainder is the identity. -/
@@ -316,38 +375,41 @@ theorem eval_chunked_eq_horner (t : Nat) (ht : 0 < t) (poly : List F) (x : F) :
 
 example : evalPolynomial 3 [(1 : Int), 2, 3, 4, 5, 6, 7] 2 = horner [1, 2, 3, 4, 5, 6, 7] 2 := by decide
 
-/-- `kate_division_spec`: for a non-empty coefficient vector `a` and every `b`, `kate_division`
-returns `q` with `len q = len a − 1` and `a(X) = q(X)·(X − b) + a(b)` (as polynomial functions on
-every `x`); in particular the division is exact when `b` is a root. -/
-theorem kate_division_spec (a : List F) (b : F) (ha : a ≠ []) :
-    ∃ q, kateDivision a b = some q ∧ q.length = a.length - 1 ∧
-      ∀ x, horner a x = horner q x * (x - b) + horner a b := by
-  obtain ⟨c, t, rfl⟩ := List.exists_cons_of_ne_nil ha
-  unfold kateDivision
-  simp only [List.isEmpty_cons, Bool.false_eq_true, if_false, List.length_cons, Nat.add_sub_cancel]
-  have htake : (c :: t).reverse.take t.length = t.reverse := by
-    rw [List.reverse_cons]
-    exact List.take_left' (by simp)
-  rw [htake, List.foldl_reverse]
-  by_cases ht : t = []
-  · subst ht
-    refine ⟨[], by simp, by simp, ?_⟩
-    intro x; simp [horner_cons, horner_nil]
-  · have hf : t.foldr (fun r (st : List F × F) => ((r - st.2) :: st.1, (r - st.2) * -b)) ([], 0)
-        = ((synth b t).2 :: (synth b t).1, (synth b t).2 * -b) := kate_fold b t ht
-    refine ⟨(synth b t).2 :: (synth b t).1, ?_, ?_, ?_⟩
-    · show some (List.foldr (fun x (y : List F × F) => ((x - y.2) :: y.1, (x - y.2) * -b)) ([], 0) t).1 = _
-      rw [hf]
-    · have := synth_length b t
-      have hpos : 0 < t.length := List.length_pos_iff.mpr ht
-      simp only [List.length_cons]; omega
-    · intro x
-      have h1 := synth_spec b t x
-      have h2 := synth_rem b t
-      rw [horner_cons, horner_cons, horner_cons, h1, h2]
-      ring
+/-- `kate_division_spec`: for every coefficient vector `a` and every `b`, `kate_division` returns
+`q` with `len q = len a − 1` (saturating) and `a(X) = q(X)·(X − b) + a(b)` (as polynomial functions,
+on every `x`); in particular the division is exact when `b` is a root. -/
+theorem kate_division_spec (a : List F) (b : F) :
+    (kateDivision a b).length = a.length - 1 ∧
+      ∀ x, horner a x = horner (kateDivision a b) x * (x - b) + horner a b := by
+  cases a with
+  | nil => simp [kateDivision, horner_nil]
+  | cons c t =>
+    unfold kateDivision
+    simp only [List.length_cons, Nat.add_sub_cancel]
+    have htake : (c :: t).reverse.take t.length = t.reverse := by
+      rw [List.reverse_cons]
+      exact List.take_left' (by simp)
+    rw [htake, List.foldl_reverse]
+    by_cases ht : t = []
+    · subst ht
+      refine ⟨by simp, ?_⟩
+      intro x; simp [horner_cons, horner_nil]
+    · have hf : t.foldr (fun r (st : List F × F) => ((r - st.2) :: st.1, (r - st.2) * -b)) ([], 0)
+          = ((synth b t).2 :: (synth b t).1, (synth b t).2 * -b) := kate_fold b t ht
+      have hf' : (List.foldr (fun x (y : List F × F) => ((x - y.2) :: y.1, (x - y.2) * -b)) ([], 0) t).1
+          = (synth b t).2 :: (synth b t).1 := by rw [hf]
+      rw [hf']
+      refine ⟨?_, ?_⟩
+      · have := synth_length b t
+        have hpos : 0 < t.length := List.length_pos_iff.mpr ht
+        simp only [List.length_cons]; omega
+      · intro x
+        have h1 := synth_spec b t x
+        have h2 := synth_rem b t
+        rw [horner_cons, horner_cons, horner_cons, h1, h2]
+        ring
 
-example : kateDivision [(-6 : Int), 11, -6, 1] 1 = some [6, -5, 1] := by decide
+example : kateDivision [(-6 : Int), 11, -6, 1] 1 = [6, -5, 1] := by decide
 
 end
 
@@ -381,16 +443,51 @@ theorem fft_recursive_eq_dft (k : Nat) (a : List F) (ω : F) (hlen : a.length = 
       (by intro hk; simpa using hω hk)
     simpa using h
 
-/-- `best_fft` on more than `2^log2(threads)` points (the recursive path): it returns the DFT,
-provided the in-place swap loop realises the bit-reversal permutation (next theorem). -/
-theorem best_fft_recursive_eq_dft (t k : Nat) (a : List F) (ω : F) (hlen : a.length = 2 ^ k)
-    (hω : 1 ≤ k → ω ^ (2 ^ (k - 1)) = -1) (hpath : ¬ k ≤ t.log2)
+omit [CommRing F] in
+private theorem blockMap_zero [Add F] [Sub F] [Mul F] [One F] (tw : Array F) (tc : Nat) :
+    ∀ a : List F, blockMap tw 0 tc a = a
+  | [] => blockMap_nil tw 0 tc
+  | x :: t => by
+    have h := blockMap_append tw 0 tc [x] t (by simp)
+    simp only [List.singleton_append] at h
+    rw [h, blockMap_zero tw tc t]
+    simp [fftRec]
+
+/-- `fft_iterative_eq_recursive`: for every `k`, every twiddle table and every vector of length
+`2^k`, the `k` in-place stages of the iterative path (`chunk = 2, 4, …`, `twiddle_chunk = n/2,
+n/4, …`) produce exactly what `recursive_butterfly_arithmetic` produces: the choice between the two
+by thread count (`log_n ≤ log2(threads)`) cannot change the result. -/
+theorem fft_iterative_eq_recursive (tw : Array F) (k : Nat) (a : List F) (hlen : a.length = 2 ^ k) :
+    fftIterLoop tw k 2 (2 ^ k / 2) a = fftRec tw k 1 a := by
+  have h := iterLoop_blockMap tw k 0 a (2 ^ k / 2)
+    (by intro hk
+        have : 2 ^ k = 2 * 2 ^ (k - 1) := by rw [← pow_succ', Nat.sub_add_cancel hk]
+        omega)
+    (by simpa using hlen)
+  rw [blockMap_zero] at h
+  simp only [Nat.zero_add, pow_one] at h
+  rw [h]
+  unfold blockMap
+  rw [chunksOf_single _ (by positivity) a hlen]
+  simp
+
+/-- `best_fft`, both paths, every thread count: it returns the DFT of its input (evaluations at
+`ω⁰ … ω^(n−1)`) for every `k`, every vector of length `2^k` and every primitive `2^k`-th root `ω`
+(`ω^(2^(k−1)) = −1`), provided the in-place swap loop realises the bit-reversal permutation
+(`bitrev_swap_eq_rec_upto_7` below; by correspondence above `2^7`). A wrong length is rejected
+(`assert_eq!`). -/
+theorem best_fft_eq_dft (t k : Nat) (a : List F) (ω : F) (hlen : a.length = 2 ^ k)
+    (hω : 1 ≤ k → ω ^ (2 ^ (k - 1)) = -1)
     (hperm : (bitrevPermute k a.toArray).toList = bitrevList k a) :
     bestFft t a ω k = some (dft ω a) := by
   unfold bestFft
-  simp only [hlen, ne_eq, not_true_eq_false, if_false, hpath, hperm]
-  rw [fft_recursive_eq_dft k a ω hlen hω]
+  simp only [hlen, ne_eq, not_true_eq_false, if_false, hperm]
+  have hbl : (bitrevList k a).length = 2 ^ k := length_bitrevList k a hlen
+  split
+  · rw [fft_iterative_eq_recursive _ k _ hbl, fft_recursive_eq_dft k a ω hlen hω]
+  · rw [fft_recursive_eq_dft k a ω hlen hω]
 
+example : bestFft 4 [(3 : Int), 5] (-1) 1 = some [8, -2] := by decide
 example : bestFft 1 [(3 : Int), 5] (-1) 1 = some [8, -2] := by decide
 
 end
@@ -403,6 +500,174 @@ theorem bitrev_swap_eq_rec_upto_7 :
     ∀ k ∈ List.range 8,
       (bitrevPermute k (List.range (2 ^ k)).toArray).toList = bitrevList k (List.range (2 ^ k)) := by
   decide +kernel
+
+/-! ## Evaluation domain (`proofs/src/poly/domain.rs`): conversions -/
+
+/-- A two-point domain (`n = 2`, `ω = ω_e = minusOne`, `ζ = 1`) used by the non-vacuity examples. -/
+def sampleDomain {F : Type} [One F] (minusOne half : F) : Domain F :=
+  { n := 2, k := 1, extendedK := 1, omega := minusOne, omegaInv := minusOne,
+    extendedOmega := minusOne, extendedOmegaInv := minusOne, gCoset := 1, gCosetInv := 1,
+    quotientPolyDegree := 0, ifftDivisor := half, extendedIfftDivisor := half,
+    tEvaluations := [], barycentricWeight := half }
+
+section
+variable {F : Type} [CommRing F]
+
+/-- `coeff_to_lagrange` returns the evaluations of the polynomial on the domain `{ωⁱ}`, for every
+thread count. -/
+theorem coeff_to_lagrange_spec (d : Domain F) (t : Nat) (a : List F) (hlen : a.length = 2 ^ d.k)
+    (hω : 1 ≤ d.k → d.omega ^ (2 ^ (d.k - 1)) = -1)
+    (hperm : (bitrevPermute d.k a.toArray).toList = bitrevList d.k a) :
+    d.coeffToLagrange t a = some ((List.range (2 ^ d.k)).map (fun i => horner a (d.omega ^ i))) := by
+  unfold Domain.coeffToLagrange
+  rw [best_fft_eq_dft t d.k a d.omega hlen hω hperm, dft, hlen]
+
+/-- `coeff_to_extended_spec`: for every thread count, `coeff_to_extended` (scale the coefficients by
+`1, ζ, ζ², 1, …`, zero-pad to `2^extended_k`, FFT with `extended_omega`) returns the evaluations of
+the polynomial on the coset `ζ·{ω_eⁱ}` of the extended domain — the form in which the quotient
+is computed — given `ζ³ = 1`, `g_coset_inv = ζ²` and `ω_e` a primitive `2^extended_k`-th root. -/
+theorem coeff_to_extended_spec (d : Domain F) (t : Nat) (a : List F) (hlen : a.length = 2 ^ d.k)
+    (hk : d.k ≤ d.extendedK) (hz : d.gCoset ^ 3 = 1) (hzi : d.gCosetInv = d.gCoset * d.gCoset)
+    (hω : 1 ≤ d.extendedK → d.extendedOmega ^ (2 ^ (d.extendedK - 1)) = -1)
+    (hperm : ∀ l : List F, l.length = 2 ^ d.extendedK →
+      (bitrevPermute d.extendedK l.toArray).toList = bitrevList d.extendedK l) :
+    d.coeffToExtended t a
+      = some ((List.range (2 ^ d.extendedK)).map
+          (fun i => horner a (d.gCoset * d.extendedOmega ^ i))) := by
+  unfold Domain.coeffToExtended
+  simp only [hlen, ne_eq, not_true_eq_false, if_false]
+  have hdl : (distributePowersZeta d a true).length = 2 ^ d.k := by
+    simp [distributePowersZeta, hlen]
+  have hle : 2 ^ d.k ≤ 2 ^ d.extendedK := Nat.pow_le_pow_right (by norm_num) hk
+  have hl2 : (distributePowersZeta d a true
+      ++ List.replicate (2 ^ d.extendedK - (distributePowersZeta d a true).length) 0).length
+      = 2 ^ d.extendedK := by
+    rw [List.length_append, List.length_replicate, hdl]; omega
+  rw [best_fft_eq_dft t d.extendedK _ d.extendedOmega hl2 hω (hperm _ hl2), dft, hl2]
+  congr 1
+  apply List.map_congr_left
+  intro i _
+  rw [horner_append_zeros, horner_distribute d hz hzi]
+
+/-- Non-vacuity over ℤ (`ζ = 1`, `ω = ω_e = −1`, `k = 1`, `extended_k = 2` would need `i`; here
+`extended_k = k = 1`): `3 + 5X` on `{1, −1}`. -/
+example :
+    (sampleDomain (-1 : Int) 0).coeffToExtended 3 [3, 5] = some [8, -2] ∧
+    (sampleDomain (-1 : Int) 0).coeffToLagrange 1 [3, 5] = some [8, -2] := by
+  decide
+
+end
+
+/-! ## Evaluation domain (`proofs/src/poly/domain.rs`) over a field -/
+
+section
+variable {F : Type} [Field F] [DecidableEq F]
+
+/-- Value at `x` of the Lagrange basis polynomial `l_r` of the domain `{ωⁱ}` of size `n`
+(`r` taken modulo `n` through the integer power `ω^r`): `1` at its own node, otherwise the closed
+form `ω^r (xⁿ − 1) / (n (x − ω^r))` (which is `0` at the other nodes). -/
+def lagrangeBasisEval (ω : F) (n : Nat) (r : Int) (x : F) : F :=
+  if x = ω ^ r then 1 else ω ^ r * (x ^ n - 1) / ((n : F) * (x - ω ^ r))
+
+/-- Full-strength statement for `l_i_range`: every entry is the Lagrange basis value, at every
+point `x`. FALSE for the code as it is (next theorem); kept visible. -/
+def LIRangeCorrect (F : Type) [Field F] [DecidableEq F] : Prop :=
+  ∀ (d : Domain F), d.omegaInv = d.omega⁻¹ → d.barycentricWeight = (d.n : F)⁻¹ →
+    d.omega ^ d.n = 1 → ∀ (x : F) (rots : List Int),
+      d.lIRange (fun a => a⁻¹) (fun a e => a ^ e) x (x ^ d.n) rots
+        = rots.map (fun r => lagrangeBasisEval d.omega d.n r x)
+
+/-- Known finding `l_i_range:x-in-domain`: at a domain point the barycentric formula returns 0
+instead of 1 (`batch_invert` leaves the zero denominator at zero). Witness: `ℚ`, `n = 2`,
+`ω = −1`, `x = 1 = ω⁰`, rotation `0`. -/
+theorem l_i_range_full_strength_fails : ¬ LIRangeCorrect ℚ := by
+  intro h
+  have := h { n := 2, k := 1, extendedK := 1, omega := -1, omegaInv := -1, extendedOmega := -1,
+              extendedOmegaInv := -1, gCoset := 1, gCosetInv := 1, quotientPolyDegree := 0,
+              ifftDivisor := 1 / 2, extendedIfftDivisor := 1 / 2, tEvaluations := [],
+              barycentricWeight := 1 / 2 }
+    (by norm_num) (by norm_num) (by norm_num) 1 [0]
+  simp [Domain.lIRange, Domain.rotateOmega, lagrangeBasisEval] at this
+
+/-- `l_i_barycentric` (partial: off the domain nodes that are asked for). For every `x` different
+from the requested nodes `ω^r`, every rotation list (negative, repeated, beyond `n`),
+`l_i_range(x, xⁿ, rotations)` returns `l_r(x) = ω^r (xⁿ − 1)/(n (x − ω^r))` for each `r`, with
+`ω^r = (ω⁻¹)^|r|` for negative `r`. Missing w.r.t. full strength: `x = ω^r` (previous theorem). -/
+theorem l_i_barycentric_partial (d : Domain F) (hinv : d.omegaInv = d.omega⁻¹)
+    (hbw : d.barycentricWeight = (d.n : F)⁻¹) (x : F) (rots : List Int)
+    (hx : ∀ r ∈ rots, x ≠ d.omega ^ r) :
+    d.lIRange (fun a => a⁻¹) (fun a e => a ^ e) x (x ^ d.n) rots
+      = rots.map (fun r => lagrangeBasisEval d.omega d.n r x) := by
+  rw [lIRange_eq d hinv]
+  apply List.map_congr_left
+  intro r hr
+  unfold lagrangeBasisEval
+  rw [if_neg (hx r hr), hbw]
+  rw [div_eq_mul_inv, mul_inv]
+  ring
+
+omit [DecidableEq F] in
+/-- What the code returns at a requested node: `0`. -/
+theorem l_i_range_at_node_is_zero (d : Domain F) (hinv : d.omegaInv = d.omega⁻¹) (r : Int)
+    (xn : F) :
+    d.lIRange (fun a => a⁻¹) (fun a e => a ^ e) (d.omega ^ r) xn [r] = [0] := by
+  rw [lIRange_eq d hinv]
+  simp
+
+/-- `divide_by_vanishing_spec`: `t_evaluations` is built by the loop "push `cur`; `cur *= step`;
+stop when `cur == orig`" (`orig = ζⁿ`, `step = ω_eⁿ`) and then inverted entry-wise after
+subtracting 1. Whenever that loop stopped by itself with `L` entries (the `assert_eq!` on the
+length), `step^L = 1`, so indexing the table modulo `L` is exact: `divide_by_vanishing_poly`
+multiplies the `i`-th extended evaluation by `1 / (orig·stepⁱ − 1) = 1 / ((ζ·ω_eⁱ)ⁿ − 1)`, the
+inverse of the vanishing polynomial `Xⁿ − 1` at the `i`-th coset point, for every `i` (the
+index-wise map goes through `parallelize`, i.e. is schedule-independent). -/
+theorem divide_by_vanishing_spec (d : Domain F) (orig step : F) (fuel : Nat) (horig : orig ≠ 0)
+    (hts : d.tEvaluations = (tEvalLoop orig step fuel orig []).map (fun c => (c - 1)⁻¹))
+    (hL : d.tEvaluations.length < fuel) (a : List F) (hlen : a.length = 2 ^ d.extendedK) :
+    d.divideByVanishingPoly a
+      = some (List.zipWith (fun h i => h * (orig * step ^ i - 1)⁻¹) a (List.range a.length)) := by
+  obtain ⟨n, h1, _, h3, h4⟩ := tEvalLoop_spec orig step fuel orig []
+  have hlenT : d.tEvaluations.length = n := by rw [hts, h1]; simp
+  have hn1 : 1 ≤ n := h3 (by omega)
+  have hstep : step ^ n = 1 := by
+    have := h4 (by omega)
+    have h' : orig * step ^ n = orig * 1 := by rw [this, mul_one]
+    exact mul_left_cancel₀ horig h'
+  unfold Domain.divideByVanishingPoly
+  simp only [hlen, ne_eq, not_true_eq_false, if_false]
+  congr 1
+  apply List.ext_getElem
+  · simp
+  · intro i hi1 hi2
+    simp only [List.getElem_zipWith, List.getElem_range]
+    congr 1
+    rw [hlenT]
+    have hmod : i % n < n := Nat.mod_lt _ (by omega)
+    have hget : d.tEvaluations.getD (i % n) 0 = (orig * step ^ (i % n) - 1)⁻¹ := by
+      rw [hts, h1]
+      simp [List.getD, hmod]
+    rw [hget]
+    have hpow : step ^ i = step ^ (i % n) := by
+      conv => lhs; rw [← Nat.div_add_mod i n, pow_add, pow_mul, hstep, one_pow, one_mul]
+    rw [hpow]
+
+/-- Non-vacuity: `orig = 3`, `step = −1` over ℚ: the loop stops after two entries. -/
+example : tEvalLoop (3 : ℚ) (-1) 5 3 [] = [3, -3] := by norm_num [tEvalLoop]
+
+/-- Non-vacuity of `l_i_barycentric_partial`: `n = 2`, `ω = −1` over ℚ at `x = 3`:
+`l₀(3) = 2`, `l₁(3) = l₋₁(3) = −1`. -/
+example :
+    (sampleDomain (-1 : ℚ) (1 / 2)).lIRange (fun a => a⁻¹) (fun a e => a ^ e) 3 (3 ^ 2) [0, 1, -1]
+      = [2, -1, -1] := by
+  norm_num [Domain.lIRange, Domain.rotateOmega, sampleDomain]
+
+omit [DecidableEq F] in
+/-- `rotate_omega(v, Rotation(r)) = v·ω^r` for every integer rotation. -/
+theorem rotate_omega_spec (d : Domain F) (hinv : d.omegaInv = d.omega⁻¹) (v : F) (r : Int) :
+    d.rotateOmega (fun a e => a ^ e) v r = v * d.omega ^ r :=
+  rotateOmega_eq d hinv v r
+
+end
 
 /-! ## Constants the FFT / domain code reads (regenerated from the source on every run) -/
 
